@@ -138,3 +138,21 @@ PROPS['C07'] = dict(_GC, race=True, design=[D('MCGoChannelImpl','MCGoChannelImpl
 PROPS['C11'] = dict(_GC, design=[D('MCGoChannelImpl','MCGoChannelImpl_persistent.cfg'), D('MCGoChannelImpl','MCGoChannelImpl_mut_persistoutside.cfg', expect='fail', violates='OneSenderPerPair')], rule='runs = persistent mode: subscriptions before/during/after 9 publishes (single and batch), forced overlaps at the hook points between persisting, '
     'sending, locking, replaying and registering (x buffer 0,1,3 x batch), random programs with up to 5 subscriptions x 4 publishers, and long backlogs replayed to a late '
     'subscription; the oracle owes every (subscription, message) pair exactly once', min_stats={'scenarios': 80, 'gates_reached': 20})
+
+PROPS['C06'] = dict(
+    level='model_checking',
+    design=[D('RouterLifecycle', 'MCRouterLifecycle_fixed.cfg', coverage=True, allow_zero=['UserStop', 'RHAfterStarted', 'Timeout']),
+            D('RouterLifecycle', 'MCRouterLifecycle_fixed_stop.cfg'),
+            D('RouterLifecycle', 'MCRouterLifecycle_mut_waits.cfg', expect='fail', violates='Graceful'),
+            D('RouterLifecycle', 'MCRouterLifecycle_mut_handleclose.cfg', expect='fail', violates='SubClosedAtEnd'),
+            D('RouterLifecycle', 'MCRouterLifecycle_mut_secondclose.cfg', expect='fail', violates='Graceful')],
+    traces={'RouterCloseTrace': dict(module='RouterCloseTrace', cfg='RouterCloseTrace.cfg')},
+    rule='runs = message m1 parked at each point of its path (inside the subscriber decorator, received-not-dispatched, dispatched-not-started, inside the handler, '
+         'before publish, before settlement) when Close arrives x {scripted subscriber, GoChannel} x closers {1 (2, 8)} x handlers {1 (2, 3)}, the received-then-held '
+         'schedule of the concurrent-waits defect, concurrent and repeated Close, handlers outliving CloseTimeout (with a second Close while the handler still runs) and '
+         'random park-and-run programs; non-trivial = the message really was at the label when Close was called',
+    exhaustive=False,
+    min_stats={'cases': 40, 'gates_reached': 20},
+    assumptions=['settlement states are sampled by the harness at the instant each Close / Run call returns',
+                 'subscriber.Close() of a handler may be observed up to 20 ms after Close returned (checked at quiescence only)'],
+)
